@@ -22,6 +22,7 @@ type Batch struct {
 	options        BatchOptions          // 批处理配置
 	mu             sync.RWMutex          // 批处理互斥锁, 保证批处理本身并发安全
 	committed      bool                  // 已提交标识
+	flushed        bool                  // 是否已有部分暂存数据因超出文件容量而提前写入磁盘
 	batchID        snowflake.ID          // 批次唯一ID
 	cachedDataSize int64                 // 当前已缓存数据量
 }
@@ -208,14 +209,19 @@ func (b *Batch) Commit() error {
 	// 提交后允许操作 DB 实例
 	defer b.db.mu.Unlock()
 
-	if len(b.staged) == 0 {
+	// 没有任何数据需要提交. 已有部分数据提前写入磁盘时 (之后的操作可能失败而使暂存区为空) 仍必须写入完成标识,
+	// 否则这部分数据当前可见, 重启后却被整体丢弃
+	if len(b.staged) == 0 && !b.flushed {
 		return nil
 	}
 
 	// 最后一部分暂存数据在完成标识写入成功后才更新索引: 提交失败的批处理在重启后会被整体丢弃, 此前也不应可见
-	dataPos, err := b.writeStaged()
-	if err != nil {
-		return err
+	var dataPos []*datafile.DataPos
+	if len(b.staged) > 0 {
+		var err error
+		if dataPos, err = b.writeStaged(); err != nil {
+			return err
+		}
 	}
 
 	// 追加批处理完成标识记录
@@ -292,6 +298,7 @@ func (b *Batch) flushStaged() error {
 	if err != nil {
 		return err
 	}
+	b.flushed = true
 	b.applyStaged(dataPos)
 	return nil
 }
